@@ -12,7 +12,7 @@ CHUNK = 1
 CASE_TIMEOUT = 900
 RULE = ("rewrite-rule closure from base programs: state = program text, transition = one spelling rule applied at one site. Rule families: "
         "letter case (mnemonic, directive, register, symbol, radix prefix, hex digits, ^C/^R), whitespace (tab, doubled blanks, blank "
-        "line, trailing and full-line comment), number radix (octal, n., 0x, 0o, 0b, ^X, ^O, ^B, ^D), grouping (<> () ^/ /; brackets around a complete operand, immediate or index offset dropped), register "
+        "line, trailing and full-line comment, a comment glued to the last token), number radix (octal, n., 0x, 0o, 0b, ^X, ^O, ^B, ^D), grouping (<> () ^/ /; brackets around a complete operand, immediate or index offset dropped), register "
         "spelling (rN %N sp/pc), mnemonic synonyms and pseudo-instruction expansions, explicit '.word' vs implicit list, (rN) vs @rN. "
         "From each of 29 single-file and 3 multi-file generated base programs (covering the statement kinds of C02/C04/C05/C06): every single rule at every site (deviation "
         "1), every pair of sites (deviation 2, thorough), every subset of rule families applied everywhere; from each of the 21 practice "
@@ -266,6 +266,9 @@ def sites(toks):
             out.append(("ws", i, "blankline"))
             out.append(("comment", i, "trailing"))
             out.append(("comment", i, "fullline"))
+            if i and toks[i - 1][0] not in ("sp", "nl", "str") and toks[i - 1][1] not in ("{",):
+                out.append(("comment", i, "glued"))   # no blank between the last token and the ';'
+
         if kind == "punct" and t == ",":
             out.append(("ws", i, "space-after"))
             out.append(("ws", i, "space-before"))
@@ -335,7 +338,7 @@ def apply(toks, site):
         elif var == "space-before":
             toks[i][1] = " ,"
     elif fam == "comment":
-        toks[i][1] = " ; a 'comment' with \"quotes\", <1> and r0 mov\n" if var == "trailing" else "\n; full-line comment: .word 1, 2 (r0)+\n"
+        toks[i][1] = {"trailing": " ; a 'comment' with \"quotes\", <1> and r0 mov\n", "glued": ";glued, 'comment' <2>\n"}.get(var, "\n; full-line comment: .word 1, 2 (r0)+\n")
     elif fam == "group":
         j = meta
         if var == "paren":
